@@ -893,9 +893,6 @@ func sweeps(r *ev.Run, id string) {
 		s.Close()
 		r.Add("chain_lease_time_before_range", 1)
 	}
-	if id != "C03" && !thorough {
-		return
-	}
 	// chaddr lengths and hostnames: one instance each, restart after every reply
 	var macs []string
 	for l := 0; l <= 16; l++ {
